@@ -92,6 +92,16 @@ func init() {
 		func(w *CliWorld, r *RunResult) { r.Nontrivial = c14ClientNontrivial(w) }))
 	register(cliFamily("C14", "c14-client-pad-empty", 1, GenC14ClientPadEmpty, c14ClientOnline, c14ClientFinal,
 		func(w *CliWorld, r *RunResult) { r.Nontrivial = c14ClientNontrivial(w) }))
+	register(&Family{Prop: "C08", Name: "c08-all", Weight: 1,
+		Gen:    func(r *RNG) any { p := GenC08All(r); p.Family = "c08-all"; return p },
+		Run:    func(plan any, tape *Tape, ss uint64) *RunResult { return RunC08(plan.(*SrvPlan), tape, ss) },
+		Decode: func(b json.RawMessage) (any, error) { p := &SrvPlan{}; return p, json.Unmarshal(b, p) },
+	})
+	register(&Family{Prop: "C08", Name: "c08", Weight: 3,
+		Gen:    func(r *RNG) any { return GenC08(r) },
+		Run:    func(plan any, tape *Tape, ss uint64) *RunResult { return RunC08(plan.(*SrvPlan), tape, ss) },
+		Decode: func(b json.RawMessage) (any, error) { p := &SrvPlan{}; return p, json.Unmarshal(b, p) },
+	})
 	register(cliFamily("C07", "c07", 1, GenC07, c07Online, c07Final,
 		func(w *CliWorld, r *RunResult) { r.Nontrivial = c07Nontrivial(w) }))
 	register(cliFamily("C02", "c02-split", 1, GenC02Split, nil, func(w *CliWorld) *Violation { return c02Final(w, "C02") },
